@@ -15,8 +15,8 @@ type C08Case struct {
 	Op   string `json:"op"` // Sum | Max | Min | Argmax | Argmin | Reduce
 	DT   string `json:"dt"`
 	A    Opnd   `json:"a"`
-	Axes []int  `json:"axes"` // Sum/Max/Min: the axes in call order (empty: none given = all); Arg*: one axis, or [-1] for all
-	Via  string `json:"via"`  // pkg | method
+	Axes []int  `json:"axes"`          // Sum/Max/Min: the axes in call order (empty: none given = all); Arg*: one axis, or [-1] for all
+	Via  string `json:"via"`           // pkg | method
 	Eng  string `json:"eng,omitempty"` // "" | "f32" | "f64": the engine the operand carries
 }
 
